@@ -640,6 +640,7 @@ def _check_table(ct, vmods, real, model, ttext, keys, u, fails, counters, do_val
     has_catch_all = any(len(col) == 0 for col in model)
     inputs0 = {"table": ttext}
     cache = {}
+    idmap = dict((id(col), i) for i, col in enumerate(real))
 
     def allowed_real(vals):
         """real filter_constraint_table + is_allowed_combination, checked against the definition"""
@@ -653,11 +654,14 @@ def _check_table(ct, vmods, real, model, ttext, keys, u, fails, counters, do_val
         ok = isinstance(flt, list)
         if ok:
             for ent in flt:  # must be the containing columns themselves (an equal copy is tolerated, order is not compared)
-                hit = [i for i, col in enumerate(real) if col is ent and i not in got_idx] or [i for i, col in enumerate(real) if col == ent and i not in got_idx]
-                if not hit:
-                    ok = False
-                    break
-                got_idx.append(hit[0])
+                i = idmap.get(id(ent))
+                if i is None or i in got_idx:
+                    hit = [j for j, col in enumerate(real) if col == ent and j not in got_idx]
+                    if not hit:
+                        ok = False
+                        break
+                    i = hit[0]
+                got_idx.append(i)
         if not ok or sorted(got_idx) != exp_idx:
             fails.add("table-filter", {"what": "filter_constraint_table does not return exactly the columns containing the given values",
                                        "inputs": dict(inputs0, values=dict(vals)), "expected": exp_idx, "observed": repr(flt)})
@@ -832,7 +836,7 @@ def _part_tables(rep, tier, seed):
         plain += [(2, 2, 4, False, None), (2, 3, 3, False, None), (2, 3, 4, False, 250000), (2, 2, 5, True, None), (3, 2, 3, True, None), (3, 2, 4, False, 300000),
                   (3, 3, 2, False, None), (3, 3, 3, False, 100000)]
     else:
-        plain += [(2, 2, 4, True, None), (2, 3, 2, False, None), (2, 3, 3, False, 40000), (2, 3, 4, False, 6000), (3, 2, 3, True, None)]
+        plain += [(2, 2, 4, True, None), (2, 3, 2, False, None), (2, 3, 3, False, 24000), (2, 3, 4, False, 6000), (3, 2, 3, True, None)]
     sp = ("ANY", "MISSING")
     special += [(1, 2, 3, False, None), (2, 1, 3, False, None), (2, 2, 3, False, None)]
     if thorough:
